@@ -155,6 +155,15 @@ def handlers : List (String × Handler) := [
     pure (axisAnswer (getitemG AxMap.size (identGeom (← getInt j "n")) [it]) true)),
   ("getitemAxisInt", fun j => do
     pure (axisAnswer (getitemG AxMap.size (identGeom (← getInt j "n")) [Item.int (← getInt j "k")]) true)),
+  ("closest", fun j => do
+    let rows ← (← getArr j "lin").toList.mapM fun r => do (← r.getArr?).toList.mapM parseRat
+    match rows with
+    | [[a00, a01, a02], [a10, a11, a12], [a20, a21, a22]] =>
+      let g : Geom := { c0 := ⟨a00, a10, a20⟩, c1 := ⟨a01, a11, a21⟩, c2 := ⟨a02, a12, a22⟩, t := ⟨0, 0, 0⟩,
+                        n0 := 1, n1 := 1, n2 := 1 }
+      let o := closest g
+      pure (okJson (Json.arr #[Json.str (String.ofList [o.1.toChar, o.2.1.toChar, o.2.2.toChar]), Json.bool g.leftHanded]))
+    | _ => throw "lin must be 3x3"),
   ("history", history)
 ]
 
